@@ -14,7 +14,12 @@ RULE = (
     "with null items, nulls in non-null positions, ResolverError at arbitrary fields; explicit "
     "resolvers, dict roots and object roots served by the default resolver; three abstract-type "
     "resolution modes); every response is compared order-sensitively with the reference executor "
-    "R-EXEC and earlier requests are re-issued later in the history. Non-trivial = distinct (schema, "
+    "R-EXEC and earlier requests are re-issued later in the history. "
+    "A third of the requests hand over a pre-parsed Document that is reused by re-issues and must "
+    "print the same after every execution; internal enum values include python Enum members; type "
+    "resolvers written as functions raise the resolver error for some objects (the field being "
+    "completed is nulled); resolver errors may lack a message or be one shared instance.  "
+    "Non-trivial = distinct (schema, "
     "request) whose operation has a fragment, merged key, directive, abstract type, null or error."
 )
 ASSUMPTIONS = [
